@@ -76,7 +76,7 @@ def pairs(tier, P):
         for j in range(n):
             if tier == 'quick':
                 # at least one HTML-only / state / namespaced / custom member, thinned to every 3rd partner
-                if not (special(P[i]) and (j % 3 == i % 3)):
+                if not (special(P[i]) and (j % 2 == i % 2)):
                     continue
             out.append((i, j))
     return out
